@@ -230,6 +230,9 @@ package xtype
 
 //@ func FindField(name, ignoreCase, source, additionalFieldSources)
 //@   props C03 C05
+// every autoMap source is searched (a candidate in a later source makes the match ambiguous)
+//@   loop 1 exhaustive every additional field source is searched
+//@   loop 1 invariant idx > 0 ==> reached("source.Type.findAllFields#1")
 //@   ensures err != nil ==> result == nil
 //@   at return assert (result1 != nil && dynIs[*NoMatchError](result1)) == (len(matches) == 0)
 //@   at return assert (result1 == nil) == (len(matches) == 1)
